@@ -7,7 +7,7 @@ import subprocess
 import sys
 from typing import Any, Dict, List, Optional, Tuple
 
-from ..core import Ctx, Infra, enc, subprocess_env, VERIF
+from ..core import Ctx, Infra, enc, dec, subprocess_env, VERIF
 from ..gen.bindings import BindGen, abstract_project, Unsupported
 from ..gen.project import Unit, build_system
 from .. import namesdump as nd
@@ -190,10 +190,33 @@ def compare_lines(ctx: Ctx, stream: str, reqs: List[str], impls: List[Optional[s
             ctx.disagree(stream, p, mo, io)
 
 
+def add_pyimp(ctx: Ctx, p_reqs, p_impl, p_pay, toks, info, modnames, src, py, import_order) -> None:
+    order = "O|" + (",".join(map(str, import_order)) or "-")
+    if py.get("error"):
+        p_reqs.append("pyimp run " + " ".join(toks) + " " + order + " ?")
+        p_impl.append("ok err=true")
+        p_pay.append({"units": src, "python_error": py["error"], "import_order": import_order})
+    elif "sites" in py:
+        lines, queries, answers = [], [], []
+        for scope, names in py["sites"].items():
+            own = sorted("%s=%s" % (enc(k), py_site(v, info)) for k, v in names.items() if "." not in k)
+            lines.append(enc(scope) + ";" + ",".join(own))
+            m, chain = split_scope(scope, modnames)
+            for dotted, v in names.items():
+                if "." in dotted and len(queries) < 600:
+                    queries.append("R|%d|%s|%s" % (m, enc(".".join(chain)) if chain else "-", enc(dotted)))
+                    answers.append(py_site(v, info))
+                    ctx.count("pyimp:query-depth:%d" % dotted.count("."))
+        p_reqs.append("pyimp run " + " ".join(toks) + " " + order + " ? " + " ".join(queries))
+        p_impl.append("ok err=false | " + " ".join(sorted(lines)) + " | " + " ".join(answers))
+        p_pay.append({"units": src, "import_order": import_order})
+
+
 def run_abstract(ctx: Ctx, gens, pyres) -> None:
     b_reqs, b_impl, b_pay = [], [], []
     p_reqs, p_impl, p_pay = [], [], []
     w_reqs, w_info = [], []
+    o_reqs, o_impl, o_pay = [], [], []
     for (g, units), py in zip(gens, pyres):
         src = {u.qname: u.source for u in units}
         try:
@@ -207,24 +230,7 @@ def run_abstract(ctx: Ctx, gens, pyres) -> None:
         modnames = info["mods"]
         order = "O|" + (",".join(str(i) for i in range(len(units))) or "-")
         # ---- (b) pyimp run: PyImp model vs CPython
-        if py.get("error"):
-            p_reqs.append("pyimp run " + " ".join(toks) + " " + order + " ?")
-            p_impl.append("ok err=true")
-            p_pay.append({"units": src, "python_error": py["error"]})
-        elif "sites" in py:
-            lines, queries, answers = [], [], []
-            for scope, names in py["sites"].items():
-                own = sorted("%s=%s" % (enc(k), py_site(v, info)) for k, v in names.items() if "." not in k)
-                lines.append(enc(scope) + ";" + ",".join(own))
-                m, chain = split_scope(scope, modnames)
-                for dotted, v in names.items():
-                    if "." in dotted and len(queries) < 600:
-                        queries.append("R|%d|%s|%s" % (m, enc(".".join(chain)) if chain else "-", enc(dotted)))
-                        answers.append(py_site(v, info))
-                        ctx.count("pyimp:query-depth:%d" % dotted.count("."))
-            p_reqs.append("pyimp run " + " ".join(toks) + " " + order + " ? " + " ".join(queries))
-            p_impl.append("ok err=false | " + " ".join(sorted(lines)) + " | " + " ".join(answers))
-            p_pay.append({"units": src})
+        add_pyimp(ctx, p_reqs, p_impl, p_pay, toks, info, modnames, src, py, list(range(len(units))))
         # ---- (a) imports build: Imports model vs the real System
         try:
             system, mods, dupcalls = build_real(units)
@@ -262,10 +268,32 @@ def run_abstract(ctx: Ctx, gens, pyres) -> None:
         b_impl.append("ok bad=%s | %s | %s" % ("true" if dupcalls else "false", pd_dump(system), " ".join(answers)))
         b_pay.append({"units": src})
         ctx.count("imports:queries", len(queries))
+        # other processing orders of the same project (the theorems quantify over every order)
+        for _ in range(2 if len(units) > 1 else 0):
+            perm = list(range(len(units)))
+            ctx.rng.shuffle(perm)
+            try:
+                sys2, mods2, dup2 = build_real(units, perm)
+            except Exception as e:
+                o_reqs.append("imports build " + " ".join(toks) + " O|" + ",".join(map(str, perm)) + " ?")
+                o_impl.append(None)
+                o_pay.append({"units": src, "order": perm, "raised": "%s: %s" % (type(e).__name__, e)})
+                continue
+            qs, ans = [], []
+            for q in queries[:60]:
+                _, m_, chain_, dotted_ = q.split("|")
+                chain2 = dec(chain_).split(".") if chain_ != "-" else []
+                qs.append(q)
+                ans.append(pd_answer(real_walk(mods2, int(m_), chain2), dec(dotted_)))
+            o_reqs.append("imports build " + " ".join(toks) + " O|" + ",".join(map(str, perm)) + " ? " + " ".join(qs))
+            o_impl.append("ok bad=%s | %s | %s" % ("true" if dup2 else "false", pd_dump(sys2), " ".join(ans)))
+            o_pay.append({"units": src, "order": perm})
+            ctx.count("imports:orders")
         w_reqs.append("imports wf " + " ".join(toks) + " O|" + ",".join(str(g.rank[u.qname]) for u in units))
         w_info.append((src, not dupcalls, py.get("error")))
     compare_lines(ctx, "imports-build", b_reqs, b_impl, b_pay)
     compare_lines(ctx, "pyimp-run", p_reqs, p_impl, p_pay)
+    compare_lines(ctx, "imports-build-orders", o_reqs, o_impl, o_pay)
     # the hypothesis of the theorems on every generated project; a WF project must have had a clean analysis and an
     # importable Python run (the two side conditions of Imports.resolve_sound_partial)
     if ctx.model_ok and w_reqs:
@@ -397,6 +425,24 @@ def run(ctx: Ctx) -> None:
             pay.append({"units": src})
     ctx.compare("names-queries", reqs, impls, pay)
     run_abstract(ctx, gens, pyres)
+    # the same projects imported by CPython in the REVERSE module order (the theorems hold for every import order)
+    nrev = 50 if ctx.quick else 600
+    sub = [(gu, pr) for gu, pr in zip(gens[:nrev], projects[:nrev])]
+    rev_projects = [dict(pr, modules=list(reversed(pr["modules"]))) for _, pr in sub]
+    rev_res: List[Dict[str, Any]] = []
+    for i in range(0, len(rev_projects), B):
+        rev_res += run_cpython(rev_projects[i:i + B])
+    p_reqs, p_impl, p_pay = [], [], []
+    for ((g, units), _), py in zip(sub, rev_res):
+        try:
+            toks, info = abstract_project(units)
+        except Unsupported:
+            continue
+        n = len(units)
+        add_pyimp(ctx, p_reqs, p_impl, p_pay, toks, info, info["mods"], {u.qname: u.source for u in units}, py,
+                  list(range(n - 1, -1, -1)))
+        ctx.count("pyimp:reverse-order")
+    compare_lines(ctx, "pyimp-run-reversed", p_reqs, p_impl, p_pay)
 
 
 def defined_in_aliased(g: BindGen, scope: str, dotted: str, system) -> bool:
